@@ -880,10 +880,13 @@ class KafkaClient(object):
 
     def _handle_responses(self, responses, fail_on_error, callback=None, consumer_group=None):
         out = []
+        # With fail_on_error the first error is raised, but only once every
+        # response was examined: each stale-routing answer must invalidate.
+        first_error = None
         for resp in responses:
             try:
                 BrokerResponseError.raise_for_errno(resp.error, resp)
-            except (UnknownTopicOrPartitionError, NotLeaderForPartitionError):
+            except (UnknownTopicOrPartitionError, NotLeaderForPartitionError) as e:
                 log.warning(
                     "Clearing cached metadata for topic %r due to error=%s in %r",
                     resp.topic,
@@ -891,9 +894,9 @@ class KafkaClient(object):
                     resp,
                 )
                 self.reset_topic_metadata(resp.topic)
-                if fail_on_error:
-                    raise
-            except (CoordinatorLoadInProgress, NotCoordinator, CoordinatorNotAvailable):
+                if fail_on_error and first_error is None:
+                    first_error = e
+            except (CoordinatorLoadInProgress, NotCoordinator, CoordinatorNotAvailable) as e:
                 log.warning(
                     "Clearing cached metadata for group %r due to error=%s in %s",
                     consumer_group,
@@ -901,16 +904,20 @@ class KafkaClient(object):
                     resp,
                 )
                 self.reset_consumer_group_metadata(consumer_group)
-                if fail_on_error:
-                    raise
-            except BrokerResponseError:
-                if fail_on_error:
-                    raise
+                if fail_on_error and first_error is None:
+                    first_error = e
+            except BrokerResponseError as e:
+                if fail_on_error and first_error is None:
+                    first_error = e
 
+            if first_error is not None:
+                continue
             if callback is not None:
                 out.append(callback(resp))
             else:
                 out.append(resp)
+        if first_error is not None:
+            raise first_error
         return out
 
     def _get_brokerclient(self, node_id):
